@@ -52,6 +52,9 @@ class SymValues:
     def operand(self, st, op):
         if op[0] == "k":
             c = op[1]
+            if isinstance(c, dict) and c.get("bits") is None:
+                # a named (unevaluated) constant or a constant without a scalar value: keep it visible as a constant
+                return "const:%s" % (c.get("unev") or ("?" + str(c.get("ty"))))
             bits = c.get("bits") if isinstance(c, dict) else c
             return str(bits)
         return self.read(st, op[1])
